@@ -192,6 +192,7 @@ type ksResp struct {
 	hdr     http.Header
 	crashed bool
 	rec     *closeNotifyRecorder
+	reqID   string // id of the node task that served the request
 }
 
 // do performs one request against the node from the calling (client) task. The handler
@@ -233,7 +234,8 @@ func (n *ksNode) doRec(method, path, token string, body []byte, rec *closeNotify
 	seq := n.reqSeq[id]
 	n.reqMu.Unlock()
 	done := make(chan struct{})
-	n.w.SpawnOn(n.name, fmt.Sprintf("%s>%s.%d", id, n.name, seq), func() {
+	reqID := fmt.Sprintf("%s>%s.%d", id, n.name, seq)
+	n.w.SpawnOn(n.name, reqID, func() {
 		n.h.ServeHTTP(rec, req)
 		close(done)
 	})
@@ -243,7 +245,7 @@ func (n *ksNode) doRec(method, path, token string, body []byte, rec *closeNotify
 		if code == 0 {
 			code = 200
 		}
-		return &ksResp{code: code, body: rec.body.Bytes(), hdr: rec.hdr, rec: rec}
+		return &ksResp{code: code, body: rec.body.Bytes(), hdr: rec.hdr, rec: rec, reqID: reqID}
 	case <-n.crashed:
 		return &ksResp{crashed: true, rec: rec}
 	}
